@@ -16,8 +16,6 @@ import (
 	"github.com/prometheus/common/model"
 	"github.com/prometheus/prometheus/config"
 
-	"tkestack.io/kvass/pkg/utils/types"
-
 	"github.com/prometheus/prometheus/discovery/targetgroup"
 	"github.com/prometheus/prometheus/scrape"
 )
@@ -181,17 +179,22 @@ func targetHash(lbls labels.Labels, url string) uint64 {
 // some config param is not valid as label values
 // but populateLabels will add all config param into labels
 // must delete them from label set
+// a param label that relabel_configs changed must be kept, sidecar must scrape with that value.
+// prometheus sets the param labels from config before relabeling, so the changed value is shipped
+// with the prefix for invalid label names: the relabel_configs sidecar adds to remove that prefix
+// run after the config params are set and restore the value
 func labelsWithoutConfigParam(lbls labels.Labels, param url.Values) labels.Labels {
-	key := make([]string, 0, len(param))
-	for k := range param {
-		key = append(key, model.ParamLabelPrefix+k)
-	}
-
 	newlbls := labels.Labels{}
 	for _, l := range lbls {
-		if !types.FindString(l.Name, key...) {
-			newlbls = append(newlbls, l)
+		if strings.HasPrefix(l.Name, model.ParamLabelPrefix) {
+			if v := param[l.Name[len(model.ParamLabelPrefix):]]; len(v) > 0 {
+				if v[0] == l.Value {
+					continue
+				}
+				l.Name = target.PrefixForInvalidLabelName + l.Name
+			}
 		}
+		newlbls = append(newlbls, l)
 	}
 	return newlbls
 }
